@@ -10,6 +10,7 @@ package main
 import (
 	"encoding/json"
 	"fmt"
+	"go.flow.arcalot.io/pluginsdk/mcrt"
 	"sort"
 	"strings"
 	"time"
@@ -39,7 +40,9 @@ func wrap(pos string, r *ukit.Spec) *ukit.Spec {
 	case "map":
 		return &ukit.Spec{Kind: ukit.KMap, Key: &ukit.Spec{Kind: ukit.KString}, Val: r}
 	case "oneof":
-		return &ukit.Spec{Kind: ukit.KOneOfStr, Discriminator: "_t", Members: []ukit.Member{{KeyS: "x", Type: r}}}
+		// two members that belong to different namespaces (the second one cyclically the next namespace)
+		other := map[string]string{"": "n1", "n1": "n2", "n2": ""}[r.RefNS]
+		return &ukit.Spec{Kind: ukit.KOneOfStr, Discriminator: "_t", Members: []ukit.Member{{KeyS: "x", Type: r}, {KeyS: "y", Type: ref("B", other)}}}
 	}
 	return r
 }
@@ -61,6 +64,7 @@ func trees(tier string) []*ukit.Spec {
 					inner := &ukit.Spec{Kind: ukit.KScope, Root: "I", Objects: []*ukit.Spec{
 						obj("I", "inner-root", ukit.Prop{Name: "ia", Type: wrap(p2, ref("A", ns2))}, ukit.Prop{Name: "ib", Type: ref("B", "n1")}),
 						obj("A", "inner-A"),
+						obj("B", "inner-B"),
 					}}
 					root := obj("Root", "outer-root",
 						ukit.Prop{Name: "ra", Type: wrap(p1, ref("A", ns1))},
@@ -237,23 +241,40 @@ func checkTree(spec *ukit.Spec, idx int, res *ux.Result) {
 	for depth := 0; depth <= 3 && len(frontier) > 0; depth++ {
 		var next []node
 		for _, nd := range frontier {
-			var b *built
-			var s *ukit.Spec
-			pan, val, stack := ukit.Call(func() {
-				b, s = buildTree(spec)
+			// every iteration order (one deviating map iteration at a time, all permutations) of building the tree and
+			// applying the namespaces must give the same, lexically correct, link state
+			var key, diff string
+			var panicked string
+			keys := map[string]string{}
+			e := &mcrt.Explorer{MaxPreempt: 0, MaxDelay: -1, MaxDeviate: 1, MaxSteps: 1 << 20, Body: func() {
+				b, sp := buildTree(spec)
 				for _, ns := range nd.seq {
-					b.apply(s, ns)
-					res.Transitions++
+					b.apply(sp, ns)
 				}
-			})
-			if pan {
-				fail(fmt.Sprintf("panic in %s: %s", lib.PanicSite(stack), lib.PanicClass(fmt.Sprint(val))), fmt.Sprintf("applying namespaces %q panicked: %v", nd.seq, val), nd.seq)
+				key, diff = b.linkState(sp)
+			}, Check: func(r *mcrt.Result) bool {
+				res.Evaluations++
+				res.Transitions += len(nd.seq)
+				switch r.Status {
+				case mcrt.StPanic:
+					panicked = fmt.Sprintf("panic in %s: %s", lib.PanicSite(r.PanicStack), lib.PanicClass(r.PanicValue))
+				case mcrt.StComplete:
+					if diff != "" {
+						fail("references are not resolved lexically", fmt.Sprintf("after applying namespaces %q (map orders %v):\n%s", nd.seq, r.Choices, diff), nd.seq)
+					}
+					if _, ok := keys[key]; !ok {
+						keys[key] = fmt.Sprint(r.Choices)
+					}
+				}
+				return true
+			}}
+			e.All()
+			if panicked != "" {
+				fail(panicked, fmt.Sprintf("applying namespaces %q panicked", nd.seq), nd.seq)
 				continue
 			}
-			res.Evaluations++
-			key, diff := b.linkState(s)
-			if diff != "" {
-				fail("references are not resolved lexically", fmt.Sprintf("after applying namespaces %q:\n%s", nd.seq, diff), nd.seq)
+			if len(keys) > 1 {
+				fail("which references get linked depends on map iteration order", fmt.Sprintf("after applying namespaces %q: %v", nd.seq, keys), nd.seq)
 			}
 			if seen[key] {
 				continue
